@@ -7,6 +7,7 @@ import (
 	"fmt"
 	"io"
 	"math/rand"
+	"net/url"
 	"os"
 	"regexp"
 	"servitor/config"
@@ -118,6 +119,7 @@ func verifBuildWorld(sim *verifsim.Sim) *verifWorld {
 	w.name[u("/media/alice.png")] = "pic_alice"
 	w.name[u("/notes/n3")] = "n3"
 	w.name[u("/missing")] = "fo"
+	w.put("/empty", map[string]any{"type": "OrderedCollection", "totalItems": 0, "orderedItems": []any{}})
 	/* outside the model's world: a post whose replies and author cannot be obtained (C08 liveness scenario) */
 	w.put("/notes/x1", map[string]any{"type": "Note", "name": "x1", "content": "<p>x</p>", "replies": u("/missing-replies"), "attributedTo": u("/missing-author")})
 	w.id, w.actors, w.activityOf = "w1", []string{"alice", "bob"}, map[string]string{"n1": "a1", "n3": "a2"}
@@ -165,6 +167,7 @@ func verifBuildWorld2(sim *verifsim.Sim) *verifWorld {
 	w.name[u("/media/carol-banner.jpg")] = "banner_carol"
 	w.name[u("/notes/q4")] = "q4"
 	w.name[u("/missing")] = "fo"
+	w.put("/empty", map[string]any{"type": "OrderedCollection", "totalItems": 0, "orderedItems": []any{}})
 	/* outside the model's world: a post whose replies and author cannot be obtained (C08 liveness scenario) */
 	w.put("/notes/x1", map[string]any{"type": "Note", "name": "x1", "content": "<p>x</p>", "replies": u("/missing-replies"), "attributedTo": u("/missing-author")})
 	w.id, w.actors = "w2", []string{"carol", "grp"}
@@ -763,6 +766,29 @@ func verifStatusLine(w *verifWorld, out *verifkit.Trace, sid *int, rng *rand.Ran
 		v.flushFrames()
 		out.Emit(verifkit.M{"ev": "status", "sid": *sid, "scenario": "command typed key by key", "w": width, "typed": done, "panic": panicked, "what": what})
 	}
+	/* the smallest terminal (two rows), also with nothing highlighted: every mode that has a status line */
+	for _, page := range []string{"/empty", w.startA, "/missing"} {
+		for _, height := range []int{2, 3} {
+			*sid++
+			v := verifNewSession(w, out, *sid, true)
+			if err := v.s.Subcommand("open", w.h.URL(page)); err != nil || !v.settle(8*time.Second) {
+				continue
+			}
+			v.resize(20+rng.Intn(30), height)
+			panicked, what := false, ""
+			done := 0
+			for _, b := range []byte{':', 'o', 'p', 27, '1', '2', 127, 127, ':', 'x', '\r', 'j', 'p', 27} {
+				panicked, what, _ = v.press(string(b), []byte{b})
+				done++
+				if panicked {
+					break
+				}
+			}
+			v.hookCalls()
+			v.flushFrames()
+			out.Emit(verifkit.M{"ev": "status", "sid": *sid, "scenario": fmt.Sprintf("status line on %d rows, page %s", height, page), "w": 0, "typed": done, "panic": panicked, "what": what})
+		}
+	}
 	defer os.Unsetenv("VERIF_HOOK_FAIL")
 	defer os.Unsetenv("VERIF_HOOK_OUTPUT")
 	for i, output := range []string{"\x1b[5;31mno such viewer\x1b[0m", "first line\nsecond line\n", "tab\there \x07bell \u009b7m c1", "plain failure"} {
@@ -797,6 +823,15 @@ type verifTruth struct {
 	known                 bool // media type known from the document (else: read through the accessor)
 }
 
+/* an address parsed and written out again by net/url (what a program that keeps addresses as parsed URLs passes on) */
+func verifNormal(address string) string {
+	parsed, err := url.Parse(address)
+	if err != nil {
+		return address
+	}
+	return parsed.String()
+}
+
 func verifHookWorld(w *verifWorld) (postURL string, actorURL string, truth []verifTruth) {
 	u := w.h.URL
 	hrefs := []string{u("/plain"), u("/with space"), "--leading-dash", "$(touch /tmp/verif-pwned)", "`id`", "%url", "%mimetype",
@@ -818,13 +853,18 @@ func verifHookWorld(w *verifWorld) (postURL string, actorURL string, truth []ver
 			map[string]any{"type": "Document", "url": u("/att/doc?x=$(id)"), "mediaType": "%subtype/%url", "name": "second"},
 			map[string]any{"type": "Image", "url": u("/att/noType"), "name": "third"},
 			map[string]any{"type": "Link", "href": u("/att/weird"), "mediaType": "x-%url/%mimetype+%supertype", "name": "fourth"},
-			map[string]any{"type": "Document", "url": u("/att/untyped doc"), "name": "fifth"}}})
-	/* addresses of attachments are parsed and written out again (a blank becomes %20): the same address in
-	   normal form, read through the accessor; their media types are settled by the document */
-	truth = append(truth, verifTruth{"", "image/png", "image", "png", true}, verifTruth{},
-		verifTruth{"", "image/*", "image", "*", true}, verifTruth{}, verifTruth{"", "*/*", "*", "*", true})
+			map[string]any{"type": "Document", "url": u("/att/untyped doc"), "name": "fifth"},
+			map[string]any{"type": "Document", "url": "https://CDN.Example.ORG/Videos/Clip.mp4?X-Sig=AbC%2Fd&n=1"},
+			map[string]any{"type": "Link", "href": "https://Media.Example.org/stream.m3u8", "mediaType": "application/x-mpegURL", "name": "seventh"}}})
+	/* addresses of attachments are parsed and written out again (a blank becomes %20): the same address in the
+	   normal form of net/url, computed here from the document; media types as the document settles them */
+	truth = append(truth, verifTruth{verifNormal(u("/att/one two.png")), "image/png", "image", "png", true}, verifTruth{link: verifNormal(u("/att/doc?x=$(id)"))},
+		verifTruth{verifNormal(u("/att/noType")), "image/*", "image", "*", true}, verifTruth{link: verifNormal(u("/att/weird"))},
+		verifTruth{verifNormal(u("/att/untyped doc")), "*/*", "*", "*", true},
+		verifTruth{verifNormal("https://CDN.Example.ORG/Videos/Clip.mp4?X-Sig=AbC%2Fd&n=1"), "*/*", "*", "*", true},
+		verifTruth{verifNormal("https://Media.Example.org/stream.m3u8"), "application/x-mpegURL", "application", "x-mpegURL", true})
 	w.put("/users/carol", map[string]any{"type": "Person", "name": "carol", "preferredUsername": "carol",
-		"icon": map[string]any{"type": "Image", "url": u("/media/carol icon.png"), "mediaType": "image/png"},
+		"icon": map[string]any{"type": "Image", "url": "https://IMG.Example.ORG/Avatars/Carol Icon.png", "mediaType": "Image/PNG"},
 		"image": []any{map[string]any{"type": "Image", "url": u("/media/banner-$(x).jpg")}, map[string]any{"type": "Link", "href": u("/media/small.gif"), "mediaType": "image/gif", "width": 1, "height": 1}}})
 	return u("/notes/hk"), u("/users/carol"), truth
 }
@@ -888,13 +928,14 @@ func TestVerifHook(t *testing.T) {
 				}
 				if link, mt, present := post.Media(); present {
 					p := mtOf(link, mt.Essence, mt.Supertype, mt.Subtype, true)
+					p.link = verifNormal(w.h.URL("/media/big file.mp4"))
 					p.keys = "o"
 					probes = append(probes, p)
 				}
 			}
 			if actor, isActor := item.(*pub.Actor); isActor {
-				if link, mt, present := actor.ProfilePic(); present {
-					p := mtOf(link, mt.Essence, mt.Supertype, mt.Subtype, true)
+				if _, _, present := actor.ProfilePic(); present {
+					p := mtOf(verifNormal("https://IMG.Example.ORG/Avatars/Carol Icon.png"), "Image/PNG", "Image", "PNG", true)
 					p.keys = "p"
 					probes = append(probes, p)
 				}
